@@ -58,6 +58,28 @@ def gen_cases(c, scale):
     for uri in (b"/sing/x", b"/s.html", b"/ax", b"/a-v2/index", b"/f%2Fx", b"/ss/s", b"/s_"):
         dec = uri.replace(b"%2F", b"/")
         fixed(b"GET", b"", dec, uri, [], [])
+    # 30..150 variables (string_map growth) on all three front-ends; the echo reports the map and by-name lookups
+    for i in range(10 * scale):
+        r = gen_absreq(rng, manyvars=True)
+        enc, q, ck = encode_all(r, rng)
+        for api in APIS:
+            for segs in segmentations(rng, enc[api], 1):
+                cases.append(Case(api, "hc", segs, absreq=(r, q, ck), tag="wf-manyvars"))
+    # kept-alive connections whose first request carries one variable of 1025..2040 bytes (string_pool pages)
+    for i in range(6 * scale):
+        for api in ("http", "fastcgi"):
+            parts = []
+            k = rng.choice([2, 3])
+            for j in range(k):
+                r = gen_absreq(rng, bigvalue=(j == 0), bighdr=False)
+                if j > 0 and rng.random() < 0.7:
+                    r.headers += [(b"X-Fill-%d" % t, rand_bytes(rng, rng.choice([200, 300, 600]), TOKEN_CHARS)) for t in range(rng.choice([3, 6, 9]))]
+                r.keep = True; r.http11 = True
+                enc, q, ck = encode_all(r, rng)
+                parts.append(enc[api])
+            d = b"".join(parts)
+            for segs in segmentations(rng, d, 1):
+                cases.append(Case(api, "hc", segs, tag=f"keepalive{k}-largefirst", nreq=k))
     # header sections up to the 16 KiB limits, arriving in several reads
     for i in range(10 * scale):
         r = gen_absreq(rng, bighdr=True)
